@@ -156,11 +156,18 @@ class C01(Prop):
         cfg = {"hazards": hz, "rounds": rng.randint(2, 10 if tier == "quick" else 16),
                "cycles": 1 if tier == "quick" else rng.choice([1, 2, 3]),
                "n_files": rng.randint(1, 4), "max_lines": 40 if tier == "quick" else 120,
-               "human_pre_ckpt": rng.random() < 0.3}
+               "human_pre_ckpt": rng.random() < 0.3, "gates": self.gates()}
         idg = gen.IdGen()
         files = gen.initial_files(rng, idg, cfg["n_files"], 12, hz)
         return {"world": {"mode": "wrapper"}, "sessions": ["s%d" % (k + 1) for k in range(n_sessions)],
                 "cfg": cfg, "init": {"files": files}, "next_id": idg.next_id}
+
+    def gates(self):
+        import os
+        if os.environ.get("GAISIM_GATES") is not None:
+            return [x for x in os.environ["GAISIM_GATES"].split(",") if x]
+        from ..runner import load_known
+        return sorted({kf["generator_gate"] for kf in load_known().get("findings", []) if kf.get("generator_gate")})
 
     def next_op(self, rng, ex, i, cfg):
         st = ex.gen_state.setdefault("c01", {"round": 0, "cycle": 0, "phase": "edit"})
@@ -185,7 +192,10 @@ class C01(Prop):
                     old = ex.w.read(repo, path)
                 kinds = None
                 if old is not None and (hz.get("uspace") or hz.get("moves")):
-                    kinds = list(gen.EDIT_KINDS) + (["wsnorm", "wsnorm"] if hz.get("uspace") else []) + \
+                    # (wsnorm by another author is the trigger of finding ws_change_next_to_deletion once
+                    # ops are merged; when that finding is listed only the line's own writer normalises)
+                    gated = False   # (the generator never combines wsnorm with a deletion in one edit)
+                    kinds = list(gen.EDIT_KINDS) + (["wsnorm", "wsnorm"] if hz.get("uspace") and not gated else []) + \
                         (["move", "move"] if hz.get("moves") else [])
                 new, desc = gen.mutate(rng, ex, old, who, hz,
                                        kinds=["insert"] if old is None else kinds)
